@@ -58,6 +58,13 @@ pub fn gen(tier: &str, seed: u64) -> Vec<String> {
         ("(defsrc a b)\n(deflayer l0 (mwheel-left 20 120) b)\n", vec![1, 10, 19, 20, 21, 100]),
         ("(defsrc a b)\n(deflayer l0 (mwheel-right 20 120) (mwheel-down 30 120))\n", vec![1, 10, 19, 20, 21, 100]),
         ("(defsrc a b)\n(deflayer l0 (movemouse-left 20 1) (movemouse-down 30 1))\n", vec![1, 10, 19, 20, 21, 100]),
+        // the remaining pointer forms: the loop must keep ticking through an acceleration ramp and
+        // while a move is parked in the smooth-diagonals buffer (is_idle reads only the two movement
+        // states), wheel notches and the toggling caps-word
+        ("(defsrc a b)\n(deflayer l0 (movemouse-accel-up 20 50 1 9) b)\n", vec![1, 10, 19, 20, 21, 49, 50, 51, 100]),
+        ("(defcfg movemouse-smooth-diagonals yes)\n(defsrc a b)\n(deflayer l0 (movemouse-left 20 1) (movemouse-down 30 1))\n", vec![1, 10, 19, 20, 21, 29, 30, 31, 100]),
+        ("(defcfg movemouse-smooth-diagonals yes movemouse-inherit-accel-state yes)\n(defsrc a b)\n(deflayer l0 (movemouse-accel-left 20 60 1 9) (movemouse-accel-down 30 40 2 5))\n", vec![1, 10, 19, 20, 21, 39, 40, 41, 100]),
+        ("(defsrc a b)\n(deflayer l0 mwu (caps-word-toggle 50))\n", vec![1, 10, 49, 50, 51, 200]),
         ("(defsrc a b)\n(deflayer l0 (switch () (tap-hold 0 20 x y) fallthrough () (tap-hold 0 60 z w) break) b)\n", vec![1, 19, 20, 21, 30, 59, 60, 61, 200]),
         ("(defsrc a b)\n(deflayer l0 (switch ((key-timing 1 lt 100)) x break () y break) a)\n", vec![1, 50, 99, 100, 101, 300]),
         ("(defsrc a b c)\n(deflayer l0 (tap-hold 0 50 x y) (tap-hold 0 80 z w) c)\n", vec![1, 10, 49, 50, 79, 80, 81, 200]),
